@@ -215,6 +215,8 @@ package handler
 //@   call EcbDecrypt#0: assert sameSlice(arg_key, key)
 //@   call Write#0: assert sameSlice(arg_p, out)
 //@   ensures implies(limitBytes > 0 && old(r.ContentLength) > limitBytes, result == errContentLengthExceeded)
+// a body of exactly the limit is within the limit: the size refusal happens only for a declared length ABOVE it
+//@   call return#0: assert limitBytes > 0 && r.ContentLength > limitBytes
 //@   modifies heap
 
 //@ func newCryptionResponseWriter
